@@ -1,0 +1,21 @@
+//go:build verif
+
+// Contracts for package metrics (comment-only; read by /verif/govc).
+
+package metrics
+
+//@ // Compaction keeps the history in its order (C19): an entry that is kept as it is
+//@ // is appended only when no aggregated bucket is pending - the bucket, which stands
+//@ // for earlier entries, is always flushed first. (Conservation of the sum is stated
+//@ // in DESIGN.md and not yet discharged.)
+//@ func (c *Counter) doRollUp(fromLabel pb.RollUpLabel, toLabel pb.RollUpLabel, rollUpDuration time.Duration, truncateDuration time.Duration)
+//@   property C19
+//@   mode int
+//@   noframe
+//@   wraps_signed
+//@   requires c != nil
+//@   assert_at "newHistory = append(newHistory, h)": last == nil
+//@   loop 1:
+//@     modifies nothing
+//@     invariant -1 <= rangeindex && rangeindex < len(c.history)
+//@     invariant last != nil ==> last.Delta != nil && last.TimeUnixMilli != nil
